@@ -128,3 +128,23 @@ package transitioner
 //@ func (t Transitioner) Commit(evt string, src string, dst string, args map[string]string) (finalState string, err error)
 //@   noverify
 //@   ensures err == nil && (evt == "START" || evt == "STOP" || evt == "CONFIGURE" || evt == "RESET" || evt == "EXIT") ==> finalState == dst
+
+// ---------------------------------------------------------------------------------------------------------
+// C16: the representation invariant the Commit contracts assume is established by the constructor: the state map is the
+// documented correspondence and the inverse map, built by ranging over it, is exactly its inverse.
+//@ closure NewFairMQTransitioner #1
+//@   property C16
+//@   opt strings=uf
+//@   requires stateMap != nil && (forall k string :: (k in stateMap) <==> fmqOf(k) != "") && (forall k string :: (k in stateMap) ==> stateMap[k] == fmqOf(k))
+//@   modifies nothing
+//@   loop 1 invariant fresh(inv) && inv != nil
+//@   loop 1 invariant forall k string :: #visited[k] ==> (fmqOf(k) in inv) && inv[fmqOf(k)] == k
+//@   loop 1 invariant forall f string :: (f in inv) ==> img(f) != "" && inv[f] == img(f) && #visited[img(f)]
+//@   ensures fresh(inv) && inv != nil
+//@   ensures forall f string :: (f in inv) <==> img(f) != ""
+//@   ensures forall f string :: (f in inv) ==> inv[f] == img(f)
+
+//@ func NewFairMQTransitioner(transitionFunc DoTransitionFunc) (cm *FairMQ)
+//@   property C16
+//@   opt strings=uf
+//@   ensures wfFMQ(cm) && cm.DoTransition == transitionFunc
